@@ -63,11 +63,10 @@ func main() {
 			if _, isBin := x.Cond.(*ast.BinaryExpr); !isBin {
 				muts = append(muts, mut{"negate", x.Cond.Pos(), "negate condition", func() { x.Cond = &ast.UnaryExpr{Op: token.NOT, X: &ast.ParenExpr{X: x.Cond}} }})
 			}
-			if x.Else == nil && x.Init == nil && len(x.Body.List) >= 1 {
-				if _, isRet := x.Body.List[len(x.Body.List)-1].(*ast.ReturnStmt); isRet {
-					muts = append(muts, mut{"dropguard", x.Pos(), "drop guard statement", func() { x.Cond = &ast.Ident{Name: "false"} }})
-				}
-			}
+		case *ast.BlockStmt:
+			addDrops(&muts, &x.List)
+		case *ast.CaseClause:
+			addDrops(&muts, &x.Body)
 		case *ast.DeferStmt:
 			muts = append(muts, mut{"dropdefer", x.Pos(), "drop defer", func() {
 				x.Call = &ast.CallExpr{Fun: &ast.FuncLit{Type: &ast.FuncType{Params: &ast.FieldList{}}, Body: &ast.BlockStmt{}}}
@@ -80,6 +79,9 @@ func main() {
 				}
 			}
 		case *ast.CallExpr:
+			if isFormatting(x) {
+				break // argument order of a message text is not behaviour any property speaks about
+			}
 			for i := 0; i+1 < len(x.Args); i++ {
 				if simple(x.Args[i]) && simple(x.Args[i+1]) {
 					x, i := x, i
@@ -124,6 +126,53 @@ func simple(e ast.Expr) bool {
 		return x.Name != "nil" && x.Name != "true" && x.Name != "false"
 	case *ast.SelectorExpr:
 		return simple(x.X)
+	}
+	return false
+}
+
+// addDrops: removing a guard statement (an if without else whose body ends in
+// return) from its statement list. The result compiles only when the guard's
+// variables are used elsewhere — e.g. an err that a later call re-assigns —
+// which is exactly the quiet edit of interest.
+func addDrops(muts *[]mut, list *[]ast.Stmt) {
+	for i, st := range *list {
+		ifs, ok := st.(*ast.IfStmt)
+		if !ok || ifs.Else != nil || len(ifs.Body.List) == 0 {
+			continue
+		}
+		if _, isRet := ifs.Body.List[len(ifs.Body.List)-1].(*ast.ReturnStmt); !isRet {
+			continue
+		}
+		i := i
+		*muts = append(*muts, mut{"dropguard", ifs.Pos(), "delete guard statement", func() {
+			var nl []ast.Stmt
+			nl = append(nl, (*list)[:i]...)
+			if ifs.Init != nil {
+				nl = append(nl, ifs.Init)
+			}
+			nl = append(nl, (*list)[i+1:]...)
+			*list = nl
+		}})
+	}
+}
+
+func isFormatting(c *ast.CallExpr) bool {
+	sel, ok := c.Fun.(*ast.SelectorExpr)
+	if !ok {
+		if id, isID := c.Fun.(*ast.Ident); isID {
+			return id.Name == "decodeErrorf" || id.Name == "panic"
+		}
+		return false
+	}
+	if id, isID := sel.X.(*ast.Ident); isID {
+		switch id.Name {
+		case "fmt", "log", "errors":
+			return true
+		}
+	}
+	switch sel.Sel.Name {
+	case "Errorf", "Printf", "Sprintf", "Fatalf", "Panicf", "Logf":
+		return true
 	}
 	return false
 }
